@@ -83,7 +83,7 @@ func main() {
 		out      = flag.String("out", "", "result JSON path")
 		unwind   = flag.Int("unwind", 64, "loop unwinding bound")
 		budget   = flag.Int("budget", 20_000_000, "instruction budget per path")
-		maxAlloc = flag.Int64("maxalloc", 1<<12, "largest make() the engine will materialise")
+		maxAlloc = flag.Int64("maxalloc", 64, "largest symbolic make() size the engine enumerates")
 		timeout  = flag.Int("timeout", 20000, "per-query solver timeout in ms")
 		solver   = flag.String("solver", "z3", "z3 | z3-new | cvc5")
 		workers  = flag.Int("j", 4, "worker count")
@@ -268,7 +268,7 @@ func main() {
 			opts.Concrete = []uint64{}
 		}
 	}
-	sh := &Shared{prog: prog, redirects: redirects, errType: errType, harness: hf, opts: opts, res: res, guards: guards}
+	sh := &Shared{prog: prog, redirects: redirects, errType: errType, harness: hf, opts: opts, res: res, guards: guards, sizes: types.SizesFor("gc", "amd64")}
 	explore(sh)
 
 	// status
